@@ -153,14 +153,6 @@ def run(res, a):
             viol.append(("%s reports '%s' and still exits 0 and writes a machine (a source that cannot be fitted must be rejected)" % (n, said[n]),
                          {"origin": n}))
             continue
-        empty = [k for k, dm in enumerate(d["doms"]) if not (dm.get("Rom") or []) and k in [p for p in (d["topo"].get("procs") or [])]]
-        if empty:
-            viol.append(("machine from %s: the processor domain %d has an empty ROM (no word at the reset address)" % (n, empty[0]), {"origin": n}))
-            continue
-        undriven = [e3[1] for e3, l in zip(d["topo"].get("iin") or [], d["topo"].get("links") or []) if e3[0] == 1 and l < 0]
-        if undriven:
-            viol.append(("machine from %s: machine output o%d is not driven by anything" % (n, undriven[0]), {"origin": n}))
-            continue
         if n in expected:
             e = expected[n]
             got_bonds = sorted(b[1] for b in (d["topo"].get("bonds") or []))
@@ -182,12 +174,14 @@ def run(res, a):
                       "  (if wf_bmb t then [] else [1]) ++\n"
                       "  flat_map (fun d => (if sorted_strict (ops (fst d)) then [] else [2]) ++ (if forallb (wf_word table (fst d)) (snd d) then [] else [3]) ++\n"
                       "                     (if List.length (snd d) <=? 2 ^ obits (fst d) then [] else [4]) ++ (if Nat.eqb (rsize (fst d)) rs then [] else [5])) doms ++\n"
+                      "  (if roms_nonempty doms t then [] else [7]) ++ (if outputs_driven t then [] else [8]) ++\n"
                       "  (if wf_bondmachine table rs doms t then [] else [9]).\n"
                       "Definition M := Eval vm_compute in map diag %s.\n" % C.cq_list(["\n" + r for r in rows[i:i + shard]]))
     k = 0
     names = {1: "the bond graph is not well formed", 2: "an opcode list is not sorted and duplicate-free", 3: "a ROM word has the wrong width or does not decode "
              "to an in-range instruction of its processor", 4: "a ROM is larger than 2^O", 5: "a domain's register size differs from the machine's",
-             6: "a ROM cannot hold its program and data words (more than 2^O)", 9: "wf_bondmachine is false"}
+             6: "a ROM cannot hold its program and data words (more than 2^O)", 7: "a processor has an empty ROM (no word at the reset address)",
+             8: "a machine output is not driven by anything", 9: "wf_bondmachine is false"}
     hist = {}
     for o in C.eval_cases_parallel("C16", bodies, timeout=3000):
         for codes in o["M"]:
